@@ -61,6 +61,8 @@ func main() {
 		err = core.RunAof(w, *seed, *tier, *replay)
 	case "snap":
 		err = core.RunSnap(w, *seed, *tier, *replay)
+	case "autotrial":
+		err = core.RunAutoTrialChild(w, *replay)
 	case "sched":
 		err = core.RunSched(w, *seed, *tier, *replay)
 	case "wire":
